@@ -216,7 +216,7 @@ pub async fn observed_streams(rng: &mut Rng, out: &mut Out, stats: &mut serde_js
     }
     // ---- (b) mutated requests
     let groups: [(&str, u64, &[&str]); 5] = [("query", 1, &BASE_QUERIES), ("mutate", 2, &BASE_MUTATIONS), ("delete", 3, &BASE_DELETIONS), ("datamodel", 4, &BASE_MODELS), ("paramsjson", 5, &BASE_PARAMS)];
-    let n_b = scale(600, 9000);
+    let n_b = scale(450, 9000);
     for i in 0..n_b {
         let (api, stream, bases) = groups[[0usize, 0, 0, 1, 1, 1, 2, 3, 4][rng.below(9) as usize]];
         let base = *rng.pick(bases);
@@ -280,7 +280,7 @@ pub async fn observed_streams(rng: &mut Rng, out: &mut Out, stats: &mut serde_js
         { let mut n = Node { _entity: "1.1".into(), _json: Some("{}".into()), ..Default::default() }; n.sign(&sk).unwrap(); bincode::serialize(&IdentityAnswer { peer: n, chall_signature: vec![1; 64] }).unwrap() },
         { let mut n = Node { _entity: "1.1".into(), ..Default::default() }; n.sign(&sk).unwrap(); bincode::serialize(&n).unwrap() },
     ];
-    let n_e = scale(700, 30000);
+    let n_e = scale(500, 30000);
     let mut decoded = 0usize;
     for i in 0..n_e {
         let ty = rng.below(11);
